@@ -1,12 +1,14 @@
 package mc
 
 import (
+	"bufio"
+	"crypto/sha256"
+	"encoding/hex"
 	"fmt"
 	"reflect"
 	"sort"
 	"strings"
 
-	inf "gopkg.in/inf.v0"
 	"k8s.io/apimachinery/pkg/api/resource"
 )
 
@@ -28,6 +30,30 @@ func (d *Dumper) Dump(v any) string {
 	return sb.String()
 }
 
+// sink is what dump writes to: a strings.Builder (Dump) or a buffered hasher (Digest).
+type sink interface {
+	WriteString(s string) (int, error)
+	Write(p []byte) (int, error)
+}
+
+// Digest streams the same rendering as Dump into SHA-256 and returns the hex digest. It never materialises the
+// (possibly tens of KB large) rendering, which keeps allocation - and Go heap-lock contention between the
+// exploration workers - low. Use it for state keys.
+func (d *Dumper) Digest(vs ...any) string {
+	h := sha256.New()
+	w := bufio.NewWriterSize(h, 4096)
+	for _, v := range vs {
+		if s, ok := v.(string); ok {
+			w.WriteString(s)
+		} else {
+			d.dump(w, reflect.ValueOf(v), map[uintptr]bool{}, 0)
+		}
+		w.WriteString("|")
+	}
+	w.Flush()
+	return hex.EncodeToString(h.Sum(nil)[:16])
+}
+
 func (d *Dumper) skipType(t reflect.Type) bool {
 	p := t.PkgPath()
 	if p == "sync" || p == "sync/atomic" || strings.HasSuffix(p, "/zzverif/mc/vsync") {
@@ -42,7 +68,7 @@ func (d *Dumper) skipType(t reflect.Type) bool {
 	return false
 }
 
-func (d *Dumper) dump(sb *strings.Builder, v reflect.Value, seen map[uintptr]bool, depth int) {
+func (d *Dumper) dump(sb sink, v reflect.Value, seen map[uintptr]bool, depth int) {
 	if !v.IsValid() {
 		sb.WriteString("nil")
 		return
@@ -65,8 +91,10 @@ func (d *Dumper) dump(sb *strings.Builder, v reflect.Value, seen map[uintptr]boo
 			if dv.IsNil() {
 				q = *resource.NewScaledQuantity(iv.Field(0).Int(), resource.Scale(iv.Field(1).Int()))
 			} else {
-				dec := (*inf.Dec)(dv.UnsafePointer())
-				q = *resource.NewDecimalQuantity(*dec, resource.DecimalSI)
+				// *inf.Dec behind an unexported field: re-materialise it through NewAt so that its String method is
+				// callable (no direct import of gopkg.in/inf.v0: that would make go rewrite /repo/go.mod)
+				dec := reflect.NewAt(dv.Type().Elem(), dv.UnsafePointer()).Interface().(fmt.Stringer)
+				q = resource.MustParse(dec.String())
 			}
 		}
 		sb.WriteString(q.String())
